@@ -162,9 +162,15 @@ class Check(FormulaCheck):
                 elif k < 0.2:
                     self.judge_call(fn, rnd.choice([0, 1]), ref_fn, dom, 'logical')
                 elif k < 0.25:
-                    t = rnd.choice(['abc', '', 'one', '1,5', '#'])
+                    t = rnd.choice(['abc', '', 'one', '1,5', '#', 'i', 'j', '-i', '2i', '3+4i', '(1)', '(3+4j)', 'nan', 'inf', '-inf', 'infinity', 'NaN', '1_000', '0x10', '1e', 'e5', '--1',
+                                    '1e999', '1 2', '$5', '5%', 'TRUE', '#N/A', '1/2'])
                     g = self.ev('%s(v_x)' % fn, v_x=t)
                     self.expect('C16/%s:non-numeric-text-yields-a-number' % fn, self.is_err(g), x=t, got=g)
+            if rnd.random() < 0.15:
+                t = rnd.choice(['i', '3+4i', '2j', 'nan', 'inf', 'abc', '1_0', '(1)'])
+                for f in ('PV(0,10,v_t)', 'PV(v_t,10,1)', 'POWER(v_t,2)', 'POWER(2,v_t)', 'LOG(v_t,2)', 'ATAN2(v_t,1)', 'ATAN2(1,v_t)', 'RADIANS(v_t)', 'DEGREES(v_t)'):
+                    g = self.ev(f, v_t=t)
+                    self.expect('C16/%s:non-numeric-text-yields-a-number' % f.split('(')[0], self.is_err(g), formula=f, text=t, got=g)
             # two-argument functions
             x, b = self.arg(rnd, 'any'), rnd.choice([2, 10, 0.5, 1, 0, -2, 3, math.e, rnd.uniform(0.01, 20)])
             if b > 0 and b != 1 and rnd.random() < 0.3:
